@@ -1,8 +1,11 @@
 /- Line-protocol driver for the reachability model (C18).
    prog <id> / opt noexec / type named <u> | type iface <names|-> <embedded|-> | type other /
-   fn <name> <hasPkg> <pkgName|-> <anon|-> / i <kind> <ops|-> <call> <conv> <widen> / end
-   ->  res <id> wf=.. known=.. complete=.. widening=.. r00=.. r01=.. r10=.. r11=.. exec=.. stable=.. missing=g:reason;.. -/
+   fn <name> <hasPkg> <pkgName|-> <anon|-> / i <kind> <ops|-> <call> <conv> <widen> /
+   edge <caller> <site> <callee> (real pointer call graph, optional) / end
+   ->  res <id> wf=.. known=.. complete=.. widening=.. r00=.. r01=.. r10=.. r11=.. exec=.. stable=.. missing=g:reason;..
+       prov=<-| n:f/s/g;..>   (number of call-graph edges : the edges `Reach.provOK` does not justify w.r.t. r00) -/
 import Argot.Model.ReachGen
+import Argot.Model.ReachPtr
 import Argot.Spec.Reach
 open Argot.Reach
 
@@ -48,6 +51,7 @@ structure PAcc where
   cur : Option (String × Bool × String × List Nat) := none
   instrs : Array Instr := #[]
   noexec : Bool := false
+  edges : Array Edge := #[]
   bad : Bool := false
 
 def PAcc.flush (a : PAcc) : PAcc :=
@@ -110,7 +114,7 @@ def blame (T : Tables) (P : Prog) (reach : List Nat) : Nat → List Nat → List
       let done := step.map (·.1)
       blame T P reach k (todo.filter fun g => !done.contains g) (acc ++ step)
 
-def answer (id : String) (P : Prog) (noexec : Bool) : String :=
+def answer (id : String) (P : Prog) (noexec : Bool) (edges : List Edge) : String :=
   let T := genTables
   let b (x : Bool) := if x then "1" else "0"
   let r00 := asSet (findReachable T P false false)
@@ -123,7 +127,11 @@ def answer (id : String) (P : Prog) (noexec : Bool) : String :=
   let miss := (asSet E).filter fun g => !r00.contains g
   let reasons := blame T P r00 (miss.length + 1) miss []
   let ms := reasons.map fun (g, r) => s!"{g}:{r}"
-  s!"res {id} wf={b (wf P)} known={b genKnown} complete={b (decide (OperandTableComplete T))} widening={b (hasWidening P)} r00={showNats r00} r01={showNats r01} r10={showNats r10} r11={showNats r11} exec={showNats (asSet E)} stable={b st} missing={";".intercalate ms}"
+  -- criterion of Props/C18Ptr.ptr_reach_subset on the real call graph (small programs only)
+  let prov := if edges.isEmpty then "-" else
+    let U := unjustified P r00 edges
+    s!"{edges.length}:" ++ ";".intercalate (U.map fun e => s!"{e.1}/{e.2.1}/{e.2.2}")
+  s!"res {id} wf={b (wf P)} known={b genKnown} complete={b (decide (OperandTableComplete T))} widening={b (hasWidening P)} r00={showNats r00} r01={showNats r01} r10={showNats r10} r11={showNats r11} exec={showNats (asSet E)} stable={b st} missing={";".intercalate ms} prov={prov}"
 
 partial def loop (h : IO.FS.Stream) (acc : PAcc) : IO Unit := do
   let line ← h.getLine
@@ -151,10 +159,14 @@ partial def loop (h : IO.FS.Stream) (acc : PAcc) : IO Unit := do
     | some o, some c, some m, some _ =>
       loop h { acc with instrs := acc.instrs.push { kind := kind, ops := o, call := c, conv := m, widen := widen == "1" } }
     | _, _, _, _ => loop h { acc with bad := true }
+  | ["edge", f, st, g] =>
+    match f.toNat?, st.toNat?, g.toNat? with
+    | some f, some st, some g => loop h { acc with edges := acc.edges.push (f, st, g) }
+    | _, _, _ => loop h { acc with bad := true }
   | ["end"] =>
     let a := acc.flush
     if a.bad then IO.println s!"bad-record {a.id}"
-    else IO.println (answer a.id { fns := a.fns.toList, types := a.types.toList } a.noexec)
+    else IO.println (answer a.id { fns := a.fns.toList, types := a.types.toList } a.noexec a.edges.toList)
     loop h {}
   | [] => loop h acc
   | _ => loop h { acc with bad := true }
